@@ -67,6 +67,7 @@ Definition cerr_eqb (a b : cerr) : bool :=
 Definition result_eqb (a b : result) : bool :=
   match a, b with
   | ROk l, ROk l' => strs_eqb l l'
+  | RSet l, RSet l' => forallb (fun x => mem_str x l') l && forallb (fun x => mem_str x l) l'   (* same set *)
   | RErr e, RErr e' => cerr_eqb e e'
   | _, _ => false
   end.
@@ -154,6 +155,15 @@ Definition replay (F : nat) (o : op) (xs : list xchg) : rout * list xchg :=
   match o with
   | OList g d => match rp_group F d g xs with (RAcc l, xs1) => (RDone (ROk l), xs1) | other => other end
   | OCheck gs email => rp_check gs email [] xs
+  | OValidate looks email =>
+      match looks with
+      | [] => (RDone (ROk []), xs)                     (* nothing asked: nothing sent *)
+      | _ =>
+          if looks_uncached looks then rp_check (map fst looks) email [] xs     (* the directory decides, for all groups *)
+          else (RDone (ROk (map fst (filter (fun x => match snd x with Some set => mem_str email set | None => false end)
+                                            looks))), xs)                        (* the cache decides, nothing sent *)
+      end
+  | OPopulate g => match rp_group F 4 g xs with (RAcc l, xs1) => (RDone (RSet l), xs1) | other => other end
   end.
 
 Definition is_open_err (r : result) : bool := match r with RErr EOpen => true | _ => false end.
